@@ -4,7 +4,8 @@ EXCEL_EPOCH = datetime.datetime(1900, 1, 1)
 
 
 def number_to_datetime(value):
-    offset = 2 if value > 58 else 1
+    # Excel treats 1900 as a leap year: serial 60 is its 29 February.
+    offset = 2 if int(value) > 59 else 1
     delta = datetime.timedelta(
         days=int(value) - offset, seconds=(value % 1) * 24 * 60 * 60)
     return EXCEL_EPOCH + delta
